@@ -161,6 +161,7 @@ func lastLine(s string) string {
 func checkReadFile(c *Ctx) {
 	r := loadRepo(c, packages.LoadSyntax, "", "./template_funcs", "./internal")
 	ruleFormattersKeepComments(c, r, "R17.7")
+	ruleRenderedBytesOwnership(c, loadRepo(c, packages.LoadSyntax, "", "./internal", "./internal/cmd"), "R17.7")
 	p := r.Pkg("template_funcs")
 	fd := FuncDecl(p, "ReadFile")
 	if fd == nil {
